@@ -309,3 +309,8 @@ w("C19", "polars null outputs undecided when ignore_na is False", BL + "checks.p
 w("C12", "dataframe-level dtype written as an object again", "pandera/io/pandas_io.py",
   "        \"dtype\": (\n            None\n            if dataframe_schema.dtype is None\n            else str(dataframe_schema.dtype)\n        ),\n",
   "        \"dtype\": dataframe_schema.dtype,\n")
+w("C03", "optional result of validate_column stored unguarded again", BP + "components.py",
+  "                if schema.parsers and validated_column is not None:\n                    check_obj[column_name] = validated_column\n",
+  "                if schema.parsers:\n                    check_obj[column_name] = validated_column\n")
+w("C15", "rename_columns forgets the unique list again", "pandera/api/dataframe/container.py",
+  "        if new_schema.unique is not None:\n            new_schema.unique = [\n                (\n                    [rename_dict.get(col, col) for col in item]\n                    if isinstance(item, list)\n                    else rename_dict.get(item, item)\n                )\n                for item in new_schema.unique\n            ]\n", "")
